@@ -4,7 +4,7 @@ Case = {"src": "values"|"optional"|"bgp"|"empty", "vars": [names], "rows": [[ter
         "q": {"mod": None|"DISTINCT"|"REDUCED", "proj": [["v", name] | ["e", E, alias] …],
               "group": None | [names], "having": None | E, "order": [[E, desc] …],
               "limit": None|n, "offset": None|n}}
-termdesc = ["I", n] | ["I", n, "int"|…] | ["D", m, s] | ["F", m, s] | ["B", 0|1] | ["S", text, lang] | ["U", local] | ["N", label]
+termdesc = ["I", n] | ["I", n, "int"|…] | ["D", m, s] | ["F", m, s] (double) | ["F", m, s, "float"] | ["B", 0|1] | ["S", text, lang] | ["U", local] | ["N", label]
 E = ["v", name] | ["c", termdesc] | ["+", E, E] | ["-", E, E] | ["cmp", op, E, E]
   | ["agg", kind, distinct, "*"|E, sep|None]
 
@@ -72,8 +72,8 @@ def mk_term(d):
         return Literal(str(d[1]), datatype=URIRef(XS + (d[2] if len(d) > 2 else "integer")))
     if k == "D":
         return Literal(dec_lex(d[1], d[2]), datatype=XSD.decimal)
-    if k == "F":
-        return Literal(dec_lex(d[1], d[2]), datatype=XSD.double)  # = what rdflib makes of the token 1.5e0
+    if k == "F":  # double: what rdflib makes of the token 1.5e0; ["F", m, s, "float"]: xsd:float
+        return Literal(dec_lex(d[1], d[2]), datatype=URIRef(XS + (d[3] if len(d) > 3 else "double")))
     if k == "B":
         return Literal("true" if d[1] else "false", datatype=XSD.boolean)
     if k == "S":
@@ -92,6 +92,8 @@ def sparql_term(d):
     if k == "D":  # (rdflib's parser cannot read a negative DECIMAL token: not this property's business)
         return dec_lex(d[1], d[2]) if d[1] >= 0 else f'"{dec_lex(d[1], d[2])}"^^<{XS}decimal>'
     if k == "F":
+        if len(d) > 3:
+            return f'"{dec_lex(d[1], d[2])}"^^<{XS}{d[3]}>'
         return dec_lex(d[1], d[2]) + "e0" if d[1] >= 0 else f'"{dec_lex(d[1], d[2])}"^^<{XS}double>'
     if k == "B":
         return "true" if d[1] else "false"
@@ -131,8 +133,10 @@ def tok(d):
     k = d[0]
     if k == "I":
         return f"I.{d[2] if len(d) > 2 else 'integer'}.{d[1]}"
-    if k in "DF":
-        return f"{k}.{d[1]}.{d[2]}"
+    if k == "D":
+        return f"D.{d[1]}.{d[2]}"
+    if k == "F":
+        return f"F.{d[3] if len(d) > 3 else 'double'}.{d[1]}.{d[2]}"
     if k == "B":
         return f"B.{d[1]}"
     if k == "S":
@@ -155,7 +159,7 @@ def canon_desc(d):
         return f"Q:decimal:{f.numerator}/{f.denominator}"
     if k == "F":
         f = Fraction(d[1], 10 ** d[2])
-        return f"Q:double:{f.numerator}/{f.denominator}"
+        return f"Q:{d[3] if len(d) > 3 else 'double'}:{f.numerator}/{f.denominator}"
     if k == "B":
         return f"B:{d[1]}"
     if k == "S":
@@ -901,8 +905,10 @@ def gen_term(rng, profile, bn_ok):
             return ["I", rng.choice(INTS)]
         if r < 0.85:
             return ["D"] + list(rng.choice(DECS))
-        if r < 0.95:
+        if r < 0.93:
             return ["F"] + list(rng.choice(DBLS))
+        if r < 0.96:
+            return ["F"] + list(rng.choice(DBLS)) + ["float"]
         return ["I", rng.choice([1, 2, 3]), rng.choice(["int", "unsignedInt", "short"])]
     if profile == "str":
         if r < 0.85:
@@ -1176,4 +1182,4 @@ def _tag(prefix):
 # matchers of the *fixed* entries (documentation; core only consults matchers of `known` entries)
 MATCHERS.update({"abort_distinct_unbound": _tag("abort"), "abort_sum_nonnumeric": _tag("abort"), "agg_error_value": _tag("abort"),
                  "minmax_iri": _tag("group"), "abort_order_error": _tag("abort"), "order_unselected_key": _tag("order"),
-                 "sum_derived_dt": _tag("group")})
+                 "sum_derived_dt": _tag("group"), "avg_float_dt": _tag("group")})
